@@ -308,7 +308,7 @@ def b2u (b : Bool) : UInt64 := if b then 1 else 0
     `which` := v, the four code bytes at the installed PC restored (raw, unless PC itself is swept), one step.
     Memory is carried from one iteration to the next.  Hashes: registers without F/PC/R (+ final memory),
     F under 0xD7, PC+SP, T-states, Zilog T-states where documented, control state. -/
-def sweepReg (c0 : Cpu) (which blk nblk : Nat) : String := Id.run do
+def sweepReg (c0 : Cpu) (which blk nblk : Nat) (fmask : UInt8) : String := Id.run do
   let per := 65536 / nblk
   let a0 := c0.arch
   let pc0 := a0.reg.pc
@@ -326,31 +326,38 @@ def sweepReg (c0 : Cpu) (which blk nblk : Nat) : String := Id.run do
   let mut alldoc := true
   for k in [0:per] do
     let v := UInt16.ofNat (blk * per + k)
-    let bus1 : Bus :=
-      if which == 6 then bus
-      else { bus with mem := (((bus.mem.setIfInBounds pc0.toNat c0b).setIfInBounds (pc0 + 1).toNat c1b).setIfInBounds
-                                (pc0 + 2).toNat c2b).setIfInBounds (pc0 + 3).toNat c3b }
-    let a : Arch := { a0 with reg := setWhich a0.reg which v, bus := bus1 }
+    -- the memory array is threaded linearly: `bus` is emptied while the step owns the array
+    let mem0 := bus.mem
+    let rom0 := bus.rom
+    bus := { mem := #[], rom := none }
+    let mem1 :=
+      if which == 6 then mem0
+      else (((mem0.setIfInBounds pc0.toNat c0b).setIfInBounds (pc0 + 1).toNat c1b).setIfInBounds
+              (pc0 + 2).toNat c2b).setIfInBounds (pc0 + 3).toNat c3b
+    let a : Arch := { reg := setWhich a0.reg which v, alt := a0.alt, bus := { mem := mem1, rom := rom0 }, halt := a0.halt,
+                      int := a0.int, nmi := a0.nmi, im := a0.im, iff1 := a0.iff1, iff2 := a0.iff2 }
+    let wk := a.wakes
     let (a', cyc, info) := stepArch a
     let r := a'.reg
     let t := a'.alt
     h1 := mix (mix (mix (mix (mix (mix (mix h1 r.a.toUInt64) r.b.toUInt64) r.c.toUInt64) r.d.toUInt64) r.e.toUInt64) r.h.toUInt64) r.l.toUInt64
     h1 := mix (mix (mix (mix (mix (mix h1 r.ixh.toUInt64) r.ixl.toUInt64) r.iyh.toUInt64) r.iyl.toUInt64) r.i.toUInt64) r.sp.toUInt64
     h1 := mix (mix (mix (mix (mix (mix (mix (mix h1 t.a.toUInt64) t.flags.toByte.toUInt64) t.b.toUInt64) t.c.toUInt64) t.d.toUInt64) t.e.toUInt64) t.h.toUInt64) t.l.toUInt64
-    hf := mix hf (r.flags.toByte &&& 0xD7).toUInt64
+    hf := mix hf (r.flags.toByte &&& fmask).toUInt64
     h3 := mix (mix h3 r.pc.toUInt64) r.sp.toUInt64
     h4 := mix h4 cyc.toUInt64
+    let isdoc : Bool :=
+      match info with
+      | none => true
+      | some i => !wk && Spec.documented i.page i.d.op && !Spec.io i.page i.d.op && !Spec.isBlockRepeat i.d.instr
     let z : UInt64 :=
       match info with
       | none => 4
       | some i =>
-        let doc := !a.wakes && Spec.documented i.page i.d.op && !Spec.io i.page i.d.op && !Spec.isBlockRepeat i.d.instr
-        match doc, Spec.timing i.page i.d.instr i.tk with
+        match isdoc, Spec.timing i.page i.d.instr i.tk with
         | true, some n => UInt64.ofNat n
         | _, _ => cyc.toUInt64
-    alldoc := alldoc && (match info with
-      | none => true
-      | some i => !a.wakes && Spec.documented i.page i.d.op && !Spec.io i.page i.d.op && !Spec.isBlockRepeat i.d.instr)
+    alldoc := alldoc && isdoc
     hz := mix hz z
     h5 := mix (mix (mix (mix (mix (mix h5 (b2u a'.halt)) (b2u a'.iff1)) (b2u a'.iff2)) a'.im.toUInt64)
             (match a'.int with | none => 0x100 | some b => b.toUInt64)) (b2u a'.nmi)
@@ -447,9 +454,10 @@ def handle (st : DState) (line : String) : DState × String :=
     | none => bad
   | "SW" :: rest => (st, cmdSweep rest)
   | "SWX" :: rest => (st, cmdSweepX rest)
-  | ["SWR", w, b, n] => match parseHex w, parseHex b, parseHex n with
-    | some w, some b, some n => if n == 0 || 65536 % n != 0 || b ≥ n then bad else (st, sweepReg st.cpu w b n)
-    | _, _, _ => bad
+  | ["SWR", w, b, n, fm] => match parseHex w, parseHex b, parseHex n, parseHex fm with
+    | some w, some b, some n, some fm =>
+      if n == 0 || 65536 % n != 0 || b ≥ n then bad else (st, sweepReg st.cpu w b n (UInt8.ofNat fm))
+    | _, _, _, _ => bad
   | ["SF", n8] => match parseHex n8 with
     | some n => let c := st.cpu.setFreqEighths (UInt32.ofNat n); ({ st with cpu := c }, "V " ++ toString c.slice.max.toNat)
     | none => bad
